@@ -166,7 +166,8 @@ class Policy(object):
 
     leb:        'minimal' | 'max' | 'random'  (random needs rng, a random.Random)
     pad_subop:  also pad the LEB sub-opcode after 0xFC / 0xFE prefixes (spec-legal)
-    emit_empty: emit type/import/.../data sections even when they have 0 entries
+    emit_empty: emit type/import/.../data sections even when they have 0 entries: True (all of them) or a set of section
+                ids (only those; the data-count section, id 12, is governed by `datacount`)
     data_flag:  'keep' (segment hint, default 0) | 0 | 2 | 'random'  for active data segments
     datacount:  'auto' (follow module.datacount) | True | False
     locals:     grouping of the locals vector of every body, one of LOCALS_MODES (see `relocals`)
@@ -406,7 +407,7 @@ class _Enc(object):
                     out += self.section(12, self.u32(dcv))
             else:
                 items, fn = bodies[sid]
-                if items or p.emit_empty:
+                if items or p.emit_empty is True or (p.emit_empty and sid in p.emit_empty):
                     out += self.section(sid, fn())
         while ci < len(customs):
             out += self.custom(customs[ci][1])
